@@ -8,13 +8,14 @@ from harness.common import struct_hash
 from harness.ns import QNAMES
 
 ID = "C10"
-LEAN_MODULES = ["Pypika.Props.C10", "Pypika.Props.Builder"]
+LEAN_MODULES = ["Pypika.Props.C10", "Pypika.Props.Builder", "Pypika.Props.BuilderNames"]
 TRACE_BUILDER = True   # builder calls made by this check are also run through Pypika.B.step (harness/trace.py)
 THEOREMS = ["Pypika.C10.nsName_alias", "Pypika.C10.nsName_name", "Pypika.C10.field_qualified", "Pypika.C10.alias_always",
             "Pypika.C10.field_bare", "Pypika.C10.wantsNamespace_iff", "Pypika.C10.statement_namespace",
             "Pypika.C10.schema_outermost_first", "Pypika.C10.invented_names_distinct", "Pypika.C10.invented_names_distinct_calls",
             # concrete builder model (Builder.lean, tied call by call through harness/trace.py)
-            "Pypika.B.from_tags", "Pypika.B.from_keeps_given_alias", "Pypika.B.from_table_no_tag"]
+            "Pypika.B.from_tags", "Pypika.B.from_keeps_given_alias", "Pypika.B.from_table_no_tag",
+            "Pypika.B.join_tags", "Pypika.B.step_tags", "Pypika.B.namesGiven_eq_tagCalls", "Pypika.B.names_given_distinct"]
 AGREE = ["Pypika.Agree.class_quotes"]
 TRUSTED = ["column names of the generator encode the source they are bound to (c_<source>_<i>), so the qualifier of every "
            "occurrence in the implementation's text can be compared with that source's in-statement name"]
